@@ -59,6 +59,7 @@ CHRs2  == {<<1, 0>>, <<-1, 0>>}
 CHRsAll == {<<0, 0>>, <<1, 0>>, <<1, 1>>, <<2, 0>>, <<3, 1>>, <<4, 0>>, <<6, 0>>, <<-1, 0>>}
 CRVs   == {1, 0, -1}
 CWhats == {-1}
+CWhats1 == {1}
 CWhats2 == {-1, 1, 4}
 CHows2 == {"shut", "close"}
 =============================================================================
